@@ -50,6 +50,24 @@ theorem whitelist_only (r : Rules) (y : Bytes) (h : validate r y = true) :
 theorem whitelisted_of_filterValidates (h : FilterValidates) : FilterOutputWhitelisted :=
   fun r m x hr => whitelist_only r _ (h r m x hr)
 
+/-- (1), the proved fragment of `FilterValidates`: **XHTML rule sets** (`r.xhtml = true`, the default of
+`xss::rules`), every input, both `remove_invalid` and `escape_invalid`.  HTML mode (`r.xhtml = false`:
+pop-until-found nesting with re-typing to open_and_close_tag_without_slash) is not proved; it is covered by
+the judge on the real library only (see design.d/C04.md). -/
+theorem filter_validates_partial (r : Rules) (m : Method) (x : Bytes) (hr : RulesOk r) (hx : r.xhtml = true) :
+    validate r (filter r m x) = true :=
+  filter_validates_xhtml r hr hx m x
+
+/-- (1)+(3) for XHTML rule sets: the filter's output contains only white-listed markup -/
+theorem filter_output_whitelisted_partial (r : Rules) (m : Method) (x : Bytes) (hr : RulesOk r) (hx : r.xhtml = true) :
+    Spec.OnlyWhitelisted r (filter r m x) :=
+  whitelist_only r _ (filter_validates_partial r m x hr hx)
+
+/-- for XHTML rule sets the filter is idempotent -/
+theorem filter_idempotent_partial (r : Rules) (m m' : Method) (x : Bytes) (hr : RulesOk r) (hx : r.xhtml = true) :
+    filter r m' (filter r m x) = filter r m x :=
+  valid_is_fixed_point r m' _ (filter_validates_partial r m x hr hx)
+
 /-! ### non-vacuity -/
 
 /-- `<a href="…">` (opening_and_closing, href = alphanumerics), `<br/>` (stand_alone) -/
@@ -80,5 +98,10 @@ example : validate (exRules true) exInvalid = false := by decide +kernel
 example : filter (exRules true) .remove exInvalid = [116] := by decide +kernel
 example : validate (exRules true) (filter (exRules true) .escape exInvalid) = true := by decide +kernel
 example : filter (exRules true) .escape exInvalid ≠ exInvalid := by decide +kernel
+example : (exRules true).xhtml = true := rfl
+/-- the conclusion of `filter_validates_partial` is not vacuous: the filter really changes this input -/
+example : filter (exRules true) .remove exInvalid ≠ exInvalid ∧
+    validate (exRules true) (filter (exRules true) .remove exInvalid) = true :=
+  ⟨by decide +kernel, filter_validates_partial _ _ _ (exRules_ok true) rfl⟩
 
 end Cppcms.C04.Props
